@@ -233,6 +233,9 @@ def _parse_composition(
     if isinstance(element, ObjectMeta):
         return AllOf(element, default=default)
     if not isinstance(default, NotPassed):
+        if isinstance(element, Nothing):
+            # `Nothing` accepts no keywords, so cannot declare a default.
+            return AllOf(element, default=default)
         element.default = default
     return element
 
